@@ -16,6 +16,8 @@ def _pol(p):
         return -2
     if isinstance(p, int):
         return p
+    if isinstance(p, dict) and "script" in p:
+        return -3            # SCR: the script itself goes into pinS / poutS
     return None
 
 
@@ -78,6 +80,8 @@ def to_model(c):
                       "iat": list(n.get("iat", [1])) if n["type"] == "source" else [1],
                       "pd": list(n.get("pd", [1])) if n["type"] in ("machine", "splitter", "combiner") else [1],
                       "pin": _pol(n.get("policy_in", "FIRST_AVAILABLE")), "pout": _pol(n.get("policy_out", "FIRST_AVAILABLE")),
+                      "pinS": list(n["policy_in"]["script"]) if isinstance(n.get("policy_in"), dict) else [0],
+                      "poutS": list(n["policy_out"]["script"]) if isinstance(n.get("policy_out"), dict) else [0],
                       "ins": ins, "outs": outs})
     edges = []
     for e in c["edges"]:
